@@ -64,6 +64,7 @@ type loopInfo struct {
 	mod    map[string]bool
 	spec   *LoopSpec
 	// captured at header for preservation checks
+	headState *state
 	phis     []*ssa.Phi
 	entryEnv map[string]Val
 	rangeIdx *ssa.Phi
@@ -458,6 +459,13 @@ func (g *gen) placeKey(p *Place) string {
 func (g *gen) load1(ptr Val, elem types.Type) Val {
 	s := g.st.sortOf(elem)
 	g.lastLoadEntry = false
+	if ptr.Place != nil && ptr.Place.Kind == plCell && len(ptr.Place.Sub) == 0 {
+		if name, ok := globalNames[ptr.Place.Ref]; ok {
+			if ro := g.e.readonly[name]; ro != nil {
+				return g.readonlyVal(ro, name, elem)
+			}
+		}
+	}
 	if ptr.Place != nil {
 		g.lastLoadEntry = g.isEntryHeap(g.placeKey(ptr.Place))
 		return g.introduce(Val{T: g.loadPlace(ptr.Place), Sort: s, Typ: elem}, false)
@@ -651,6 +659,7 @@ func realLit(v constant.Value) string {
 }
 
 var globalIDs = map[string]int{}
+var globalNames = map[string]string{}
 
 func globalAddr(name string) string {
 	id, ok := globalIDs[name]
@@ -658,7 +667,32 @@ func globalAddr(name string) string {
 		id = len(globalIDs) + 1
 		globalIDs[name] = id
 	}
-	return fmt.Sprintf("(- %d)", id)
+	a := fmt.Sprintf("(- %d)", id)
+	globalNames[a] = name
+	return a
+}
+
+// readonlyVal: the value of a package-level variable that only its initializer writes.
+func (g *gen) readonlyVal(ro *ReadonlyGlobal, name string, t types.Type) Val {
+	s := g.st.sortOf(t)
+	c := "gconst_" + sanitize(name)
+	first := !g.declared[c]
+	g.declare(c, s)
+	v := Val{T: c, Sort: s, Typ: t}
+	if first {
+		g.assumed["readonly global "+name+" (written only by its initializer; checked syntactically)"] = true
+		g.introduce(v, false)
+		g.noteEntryPtr(v)
+		if ro.Inv != nil {
+			env := &specEnv{vars: map[string]Val{"value": v}, pkg: g.pkgTypes(), calleeMode: true}
+			if t, err := g.evalBool(env, ro.Inv.E); err == nil {
+				g.assumeGlobal(t)
+			} else {
+				g.unsupportedf("readonly %s: %v", name, err)
+			}
+		}
+	}
+	return v
 }
 
 var funcIDs = map[string]int{}
@@ -1222,6 +1256,7 @@ func (g *gen) loopHeader(li *loopInfo, phis []*ssa.Phi, initOf func(*ssa.Phi) st
 		g.introduce(g.vals[p], false)
 	}
 	// automatic facts for range-index loops: -1 <= idx < len (proved, see inv list) are part of invs
+	li.headState = g.cur.clone()
 	// 4. assume invariants
 	for _, inv := range invs {
 		env := g.specEnvHere()
@@ -1251,6 +1286,19 @@ func (g *gen) loopBack(li *loopInfo, from *ssa.BasicBlock) {
 			continue
 		}
 		g.oblige(fmt.Sprintf("loop#%d/inv-preserved", li.ord), inv.Label, t, token.NoPos, inv.Props)
+	}
+	if li.spec != nil {
+		for _, bc := range li.spec.Body {
+			env := g.specEnvHere()
+			g.bindLoopVars(env, li, func(p *ssa.Phi) Val { return g.vals[p] })
+			env.old = li.headState
+			t, err := g.evalBool(env, bc.E)
+			if err != nil {
+				g.contractErr(fmt.Sprintf("loop#%d-body", li.ord), bc.Label, err)
+				continue
+			}
+			g.oblige(fmt.Sprintf("loop#%d/body", li.ord), bc.Label, t, token.NoPos, bc.Props)
+		}
 	}
 	if li.spec != nil && li.spec.Decreases != nil {
 		d := li.spec.Decreases
